@@ -93,17 +93,24 @@ def check_section(header, lines):
     return viol, len(out)
 
 
-def fault_suite(ctx, search=False):
+LEDGER_WORDS = ("destroyed twice", "leaked", "over-released", "recycled slot still holds")
+
+
+def fault_suite(ctx, search=False, only=None, nq=12, nt=150):
+    """only: None = every clause of C09; "ledger" = only the exactly-once-destruction clauses (C08: '... and exceptions')"""
     quick = ctx.quick()
     ok, exe, log = vlib.build_harness(src="fault.cpp", out_name="fault")
     ctx.oblige("harness fault builds from /repo/include", ok, log[-1500:])
     if not ok:
         return
+    rule0 = ctx.rule
     ctx.rule = ("for %s generated states x 21 operations (callback-list add/insert/assign/copy/invoke, queue appendListener/enqueue/peekEvent/dispatch/process/processOne/processIf/copy, "
                 "ScopedRemover / CounterRemover / ConditionalRemover add, HeterCallbackList append/assign): the k-th allocation, callback copy, callback call, payload copy, payload move, predicate call, "
                 "filter call throws, for EVERY k until the operation completes unfaulted (exhaustive in k per state and operation); distinct = distinct (state, operation, fault point); "
-                "non-trivial = the fault fired and the exception reached the caller") % ("12" if quick else "150")
-    nstates = (12 if quick else 150) * (2 if search else 1)
+                "non-trivial = the fault fired and the exception reached the caller") % (str(nq) if quick else str(nt))
+    if only == "ledger":
+        ctx.rule = (rule0 + " | " if rule0 else "") + "fault enumeration of C09 (" + ctx.rule + "), judged here only by the object ledger: nothing destroyed twice, used after destruction, leaked or left in a recycled slot after the exception"
+    nstates = (nq if quick else nt) * (2 if search else 1)
     seeds = [ctx.seed * 1000 + i for i in range(nstates)]
     import json
     known = vlib.load_known()
@@ -131,12 +138,16 @@ def fault_suite(ctx, search=False):
             ctx.dist["injections"] += n
             if not viol:
                 ctx.cov["traces_validated"] += n
+            if only == "ledger":
+                viol = [(tag, detail) for tag, detail in viol if any(w in detail for w in LEDGER_WORDS)]
             for tag, detail in viol:
                 cls = "%s:%s" % (header.split()[1], "unrecorded-listener" if ("rem.append" in header and "left the object changed" in detail) else "other")
                 reported += 1
                 if reported <= 40:
                     ctx.fail("violation", tag + ": " + detail, "state %d\n# operation %s ; replay: build/fault %s < this file\n" % (sd, header.split()[1], header.split()[1]), "fault", "")
                     ctx.failures[-1]["classifier"] = cls
+        if rc != 0 and only == "ledger" and "Sanitizer" not in err:
+            continue        # std::terminate without a memory error is C09's business
         if rc != 0:
             # crash / terminate: the operation being injected when the process died is the last section
             cls = "%s:%s" % ((last or "? ?").split()[1], "terminate")
